@@ -80,6 +80,8 @@ def _setup_digit_mode(a, st):
 for n in range(1, MAX_DIGITS + 1):
     c = REG.add(Contract("lexid.next_id", variant=f"n={n}"))
     c.param("prev_id", KDigitStr(n))
+    c.tier = "quick" if n <= 12 else "thorough"
+    c.cost = n
     c.setup = _setup_digit_mode
     c.ensures("C17.next_id.int_greater", lambda a, res, cx: v_cmp(">", s_int(res), s_int(a.prev_id)))
     c.ensures("C17.next_id.str_greater", lambda a, res, cx: s_str_gt(res, a.prev_id))
